@@ -5,7 +5,8 @@ from harness import res_common as rc
 
 def run(ck):
     rc.run_property(ck, "mask_C03", rc.oracle_C03, fixed=rc.FIXED_HISTORIES)
-    ck.run_fixed({"failed_adds_of_unusual_shapes_change_nothing": "C03:failed-add-changed-state"})
+    ck.run_fixed({"failed_adds_of_unusual_shapes_change_nothing": "C03:failed-add-changed-state",
+                  "lookup_paths_agree_inside_a_component": "C03:lookup-changed"})
 
 
 def replay(ck, obj):
